@@ -1,5 +1,5 @@
 //@ unit env_lookup
-//@ serves C18 C01
+//@ serves C18 C01 C04
 //@ must_verify VEnv::get_env_vars_tuple VM::get_binding VM::op_deref VM::op_index VM::push VM::pop Stack::get
 //@ include prelude/head.rs
 use std::rc::Rc;
@@ -220,8 +220,7 @@ pub open spec fn popped_pushed(a: VM, b: VM) -> bool {
 //@   rule R1T(left) R3
 //@   subst "if key == s {" => "if verif_rcstr_eq(key, s) {"
 //@   subst "match *right.as_ref() {" => "match right.as_ref() {"
-//@   subst "if i < (elems.len() as i64) && i >= 0 {" => "if *i < (elems.len() as i64) && *i >= 0 {"
-//@   subst "elems[i as usize].clone()" => "elems[*i as usize].clone()"
+//@   arm_rebind "P(Int(i)) =>" i
 //@   ret r
 //@   sig <<<
         requires old(self).stack@.len() >= 2
@@ -253,13 +252,14 @@ pub open spec fn popped_pushed(a: VM, b: VM) -> bool {
 //@   after "if verif_rcstr_eq(key, s) {" <<<
                             assert(first_field(flds@, s@, it.index@));
 //@   >>>
-//@   before "if *i < (elems.len() as i64)" <<<
+//@   after "if let C(List(elems, _)) = left.as_ref() {" <<<
                     proof { axiom_vec_len_isize(elems); }
 //@   >>>
 //@   after_loop 1 <<<
                     assert(!has_field(flds@, s@));
 //@   >>>
 //@   mutant index_off_by_one "i < (elems.len() as i64)" => "i < (elems.len() as i64) + 1" expect op_index
+//@   mutant index_negative_ok "&& i >= 0" => "" expect op_index
 //@   mutant index_unsafe_null "if safe {" => "if !safe {" expect op_index
 //@ end
 
